@@ -105,6 +105,18 @@ vec('stable_under_growth', ['ENSURE(1,1)', 'SNAP_READ(0,0);ENSURE(0,1)'], 'vf_ch
 vec('gc_cooling', ['WATCH_GROW(1)', 'GC()'], '(void)0', extra=['VF_INIT=addr0 = &v->ensure(0)'], opts={'clock': 'sec'})
 vec('bs2_same_block', ['ENSURE(0,0);ENSURE(3,1)', 'ENSURE(1,0);ENSURE(2,1)'], 'vf_check(addr[0][0]+1==addr[1][0] && addr[1][1]+1==addr[0][1], 1)', extra=['VF_BS=2', 'VF_DESTROY=1'], tiers=('thorough',))
 
+# ----------------------------------------------------------------------------------------------- C15: transient topic
+TPP = {'assert': 'C15', 'stuck': 'C15'}
+def tp(name, ts, final, extra=(), **kw):
+    S('tp_' + name, 'topic/tp.cpp', kw.pop('props', TPP), defs=['VF_T%d=%s' % (i, t) for i, t in enumerate(ts)] + ['VF_FINAL=' + final] + list(extra), **kw)
+SEQ12 = lambda c: 'vf_check(ngot[%d]==2 && got[%d][0]==11 && got[%d][1]==22 && ended[%d]==1, 1)' % (c, c, c, c)
+tp('pub_close_consume', ['PUB(11);PUB(22);CLOSE()', 'auto c = t->subscribe();CONS1();CONS1();CONS1()'], SEQ12(1))
+tp('two_consumers', ['PUB(11);PUB(22);CLOSE()', 'auto c = t->subscribe();CONS1();CONS1();CONS1()', 'auto c = t->subscribe();CONS2();CONS1()'], SEQ12(1) + ';' + SEQ12(2), tiers=('thorough',))
+tp('two_consumers_one_item', ['PUB(11);CLOSE()', 'auto c = t->subscribe();CONS1();CONS1()', 'auto c = t->subscribe();CONS2()'], 'vf_check(ngot[1]==1 && got[1][0]==11 && ended[1]==1 && ngot[2]==1 && got[2][0]==11 && ended[2]==1, 1)')
+tp('batch_pub', ['PUBN2(11,22);CLOSE()', 'auto c = t->subscribe();CONS2();CONS1()'], SEQ12(1))
+tp('two_publishers', ['PUB(11)', 'PUB(22)', 'AWAIT(0);AWAIT(1);CLOSE()' , 'auto c = t->subscribe();CONS1();CONS1();CONS1()'],
+   'vf_check(ngot[3]==2 && got[3][0]+got[3][1]==33 && got[3][0]!=got[3][1] && ended[3]==1, 1)', extra=['VF_T0=PUB(11);SIGNAL(0)', 'VF_T1=PUB(22);SIGNAL(1)'])
+
 # ----------------------------------------------------------------------------------------------- manifest texts
 LEVEL_TEXT = {
  'C01': 'Real ConcurrentBoundedQueue<two-word payload, VS> IR; client programs of 2-4 threads mixing push/pop/try_/push_n/pop_n/callback variants on capacities 1-2; oracle = exactly-once multiset, per-thread FIFO, fully published payload, try_ success when sequenced after enough completed operations.',
